@@ -167,6 +167,66 @@ def build_blotter(bt, spec):
     return bt.Backtest(s, data, initial_capital=sp["capital"], integer_positions=False, additional_data={"blotter": frame, "bidoffer": {}}, progress_bar=False)
 
 
+def blotter_protocol(ctx, bt, specs, corr="blotter:rows-per-call"):
+    """the model's row selection (`Bt.Blotter.selectIdx`, the subject of `select_causal` / `window_disjoint` / `window_covers`) vs
+    the trades the real algos issue: every `transact` of a run is tapped with the date of the call, and must be the picked rows in
+    frame order (RFQ: at the model's answered price)"""
+    from ..leanrun import run_lines
+    lines, meta = [], []
+    core = bt.core
+    for spec in specs:
+        for sp in (spec, dict(spec, perturb=spec["perturb_plan"])):
+            log = []
+            orig = core.SecurityBase.transact
+
+            def tap(self, q, update=True, update_self=True, price=None, _orig=orig):
+                try:
+                    log.append((int(self.root.data.index.get_loc(self.root.now)), self.name, float(q), None if price is None else float(price)))
+                except Exception:
+                    pass
+                return _orig(self, q, update, update_self, price)
+            core.SecurityBase.transact = tap
+            try:
+                b = build_blotter(bt, sp)
+                b.run()
+            except Exception as e:  # noqa
+                ctx.count("blotter-run-raised:" + E.classify_exc(e))
+                continue
+            finally:
+                core.SecurityBase.transact = orig
+            frame = b.additional_data["blotter"]
+            stamps = [int(pd.Timestamp(x).value) for x in frame.index.get_level_values("Date")]
+            tl = [int(pd.Timestamp(x).value) for x in b.data.index]
+            lines.append("blotter %s %s" % (E.tL(tl, str), E.tL(stamps, str)))
+            meta.append((sp, frame, log, len(tl)))
+    outs = run_lines(lines) if lines else []
+    nd = 0
+    for (sp, frame, log, n), o in zip(meta, outs):
+        toks = o.split()
+        if not toks or toks[0] != "ok":
+            nd += 1
+            ctx.disagreement("corr:%s:driver-rejected" % corr, {"answer": o[:200]}, {"spec": sp, "kind": "blotter"})
+            continue
+        vals = [int(x) for x in toks[1:]]
+        k = 0
+        want = []
+        mult = 1.001 if sp["blotter"]["algo"] == "rfq" else 1.0
+        for i in range(n):
+            m = vals[k]
+            for j in vals[k + 1:k + 1 + m]:
+                r = frame.iloc[j]
+                want.append((i, frame.index[j][1], float(r["quantity"]), float(r["price"]) * mult if mult != 1.0 else float(r["price"])))
+            k += 1 + m
+        ctx.count("blotter:rows-picked", len(want))
+        ctx.count("blotter:rows-in-frames", len(frame))
+        if want != log:
+            nd += 1
+            first = next((x for x in zip(want + [None] * len(log), log + [None] * len(want)) if x[0] != x[1]), None)
+            ctx.disagreement("corr:%s:trades-differ" % corr, {"first-difference (model, real)": repr(first), "model-rows": len(want), "real-trades": len(log),
+                                                              "order": sp["blotter"]["order"]}, {"spec": sp, "kind": "blotter"})
+    ctx.protocols.append((corr, len(meta), nd))
+
+
 def gen_plan(rng, dates):
     i = rng.randint(0, len(dates) - 2)
     return {"cut": dates[i], "mode": rng.choice(["nan", "x10", "flip", "random", "random", "drop"]), "seed": rng.randint(0, 10 ** 6),
@@ -217,14 +277,17 @@ def run(ctx, bt, scale=1):
         ctx.classes.add(("frames", kind, spec["perturb_plan"]["mode"], spec["perturb_plan"]["pos"]))
         run_pair(ctx, bt, spec, build_program)
     # programs driven by a blotter / a request list (rows in any order, also dated between data dates)
+    bspecs = []
     for _ in range(ctx.scale(40, 600) * scale):
         spec = gen_blotter_spec(ctx.rng)
+        bspecs.append(spec)
         spec["perturb_plan"] = gen_plan(ctx.rng, spec["dates"])
         spec["perturb_plan"]["mode"] = "drop" if spec["perturb_plan"]["mode"] in ("drop", "nan") else "random"
         ctx.evaluations += 1
         ctx.count("blotter-rows-order:" + spec["blotter"]["order"])
         ctx.classes.add(("blotter", spec["blotter"]["algo"], spec["blotter"]["order"], spec["perturb_plan"]["mode"], spec["perturb_plan"]["pos"]))
         run_pair(ctx, bt, spec, build_blotter)
+    blotter_protocol(ctx, bt, bspecs)
     # risk programs: UpdateRisk + HedgeRisks over unit-risk tables that change on every date (FixedIncomeStrategy, hedge instruments
     # with multipliers, lazily created instruments); the tables - and nothing else - are perturbed after the cut
     from .. import risk_lib as RL
